@@ -582,7 +582,7 @@ func c07emit(w *bufio.Writer, class string, serial uint32, cfgs []string, lines 
 
 // configurations for a file whose compilation yields nRecords records (an estimate is enough: it is
 // only used to keep BatchNumParallel=0 away from the configurations that block for ever, see report)
-func c07cfgs(class string, nRecords int, big bool, rejected bool, idx int) []string {
+func c07cfgs(class string, nRecords int, big bool, rejected bool, idx int, tier string) []string {
 	if class == "cdb" {
 		if big {
 			return []string{"c1", "c8"}
@@ -590,7 +590,10 @@ func c07cfgs(class string, nRecords int, big bool, rejected bool, idx int) []str
 		return []string{"c1", "c2", "c8", "c0"}
 	}
 	if big {
-		return []string{"B1", "B8", "B0", "b1000.4.8", "b0.1.1", "b7.4.2", "b30000.2.0"}
+		if tier == "thorough" {
+			return []string{"B1", "B8", "B0", "B2", "b1000.4.8", "b0.1.1", "b7.4.2", "b30000.2.0", "b999.1.8"}
+		}
+		return []string{"B1", "B8", "B0", "b1000.4.8", "b0.1.1", "b500.4.2", "b30000.2.0"}
 	}
 	// every builder run allocates room for 2*10^7 entries (seconds of page faults): one or two per file
 	cfgs := []string{[]string{"B1", "B8", "B2", "B0"}[idx%4]}
@@ -616,7 +619,7 @@ func c07cfgs(class string, nRecords int, big bool, rejected bool, idx int) []str
 }
 
 func c07gen(g *gen, tier string, w *bufio.Writer) {
-	nSmall, bigLines := 8, 36000
+	nSmall, bigLines := 6, 36000
 	if tier == "thorough" {
 		nSmall, bigLines = 60, 75000
 	}
@@ -648,13 +651,13 @@ func c07gen(g *gen, tier string, w *bufio.Writer) {
 		}
 		lines := g.c07genFile(n, 1+g.intn(40), reject)
 		for _, class := range classes {
-			c07emit(w, class, serial+uint32(i), c07cfgs(class, count(class, lines), false, reject >= 0, i), lines)
+			c07emit(w, class, serial+uint32(i), c07cfgs(class, count(class, lines), false, reject >= 0, i, tier), lines)
 		}
 	}
 	// one file large enough for the builder to split buckets; few names => many values per key,
 	// runs of equal keys across the 30000 boundary
 	lines := g.c07genFile(bigLines, 300, -1)
 	for _, class := range classes {
-		c07emit(w, class, serial+1000, c07cfgs(class, count(class, lines), true, false, 0), lines)
+		c07emit(w, class, serial+1000, c07cfgs(class, count(class, lines), true, false, 0, tier), lines)
 	}
 }
